@@ -198,14 +198,14 @@ _gatt_prop('C08', 'gatt_c08',
 
 _gatt_target('gatt_c09', 'cccd', 24, 200, quick=dict(_Q, opts={'max_ops': 40}), thorough=_T)
 _gatt_prop('C09', 'gatt_c09',
-           rule='declarations with 1..15 CCCDs (crossing the 4 per byte packing), priorities on/off, update callback x 3 connections x histories of CCCD writes of '
+           rule='declarations with 1..9 CCCDs (crossing the 4 per byte packing), priorities on/off, update callback x 3 connections x histories of CCCD writes of '
                 '0..3 bytes with all 16 bit values, prepare/execute, reads and other traffic; non-trivial = CCCDs written on >= 2 connections or >= 5 CCCDs',
            level_text='per (connection, characteristic) 2-bit reference; after every CCCD write all cells of all connections are read back; callback count equals the '
                       'number of value changes; sampling')
 
 _gatt_target('gatt_c10', 'notify', 24, 200, quick=dict(_Q, opts={'max_ops': 40}), thorough=_T)
 _gatt_prop('C10', 'gatt_c10',
-           rule='declarations with 2..10 notify/indicate characteristics and every documented higher_outgoing_priority placement x histories of subscribe / '
+           rule='declarations with 2..8 notify/indicate characteristics and every documented higher_outgoing_priority placement x histories of subscribe / '
                 'unsubscribe, notify(var), notify<uuid>(), indicate(...), value changes, output polling, confirmations; non-trivial = the declaration has '
                 'priorities and a request is made by bound value',
            level_text='every emitted 0x1B/0x1D PDU must carry the value handle of a characteristic with a pending request of that kind, its current value, to a '
